@@ -240,6 +240,29 @@ def perturb_animals(c, tc, p):
     return c, tc
 
 
+def lean_month_animals(c, tc, p):
+    """feed-round instance in which ONE month is the bottleneck: nothing pinned for people, no (or the full) initial stock, that month's
+    harvest cut to a thousandth - feed that may never rise is then limited by that month in every later month, so each link of the
+    'never rises' chain is binding in some instance (month 0, 1, 2, the middle, the last but one)"""
+    c, tc = copy.deepcopy(c), copy.deepcopy(tc)
+    N = c["NMONTHS"]
+    m = min(p["lean_month"], N - 1)
+    tc["min_human_food_consumption"] = copy.deepcopy(tc["min_human_food_consumption"])
+    for food in tc["min_human_food_consumption"].values():
+        if hasattr(food, "kcals"):
+            food.kcals = np.asarray(food.kcals, float) * 0.0
+    if c["ADD_STORED_FOOD"]:
+        c["stored_food"].initial_available.kcals = float(np.atleast_1d(np.asarray(c["stored_food"].initial_available.kcals, float))[0]) * p["stored"]
+    crops = np.asarray(tc["outdoor_crops"].production.kcals, float).copy()
+    crops[:m] = 0.0                      # nothing can be carried into the lean month
+    crops[m] *= 1e-3
+    tc["outdoor_crops"].production.kcals = crops
+    return c, tc
+
+
+LEAN = [dict(lean_month=m, stored=s) for m, s in ((0, 0.0), (1, 0.0), (2, 0.0), (7, 0.0), (0, 1e-3), (46, 0.0))]
+
+
 def solve_model_animals(c, tc):
     from src.optimizer.optimizer import Optimizer
     with quiet():
@@ -290,6 +313,16 @@ def run_case(ctx, iso3, options, perts, title):
             continue
         ctx.event("perturbed_feed_round_solved")
         compare(ctx, "to_animals", c2, tc2, obj, case, "%s perturbed feed-round lp" % iso3)
+    for p in (LEAN if animals else []):
+        c2, tc2 = lean_month_animals(animals[0]["consts"], animals[0]["tc"], p)
+        case = dict(kind="lean_month_animals", iso3=iso3, options=options, perturbation=p)
+        try:
+            obj = solve_model_animals(c2, tc2)
+        except AssertionError:
+            ctx.abort("lean_month_feed_round_not_solved")
+            continue
+        ctx.event("lean_month_feed_round_solved")
+        compare(ctx, "to_animals", c2, tc2, obj, case, "%s feed-round lp with lean month %d" % (iso3, p["lean_month"]))
 
 
 def shard(ctx):
@@ -318,6 +351,11 @@ def replay(case, ctx):
         run_case(ctx, case["iso3"], case["options"], [], "c02_replay")
         return
     r = model.run_case(case["iso3"], case["options"], title="c02_replay")
+    if case["kind"] == "lean_month_animals":
+        cap = [c for c in r["cap"].opt if c["type"] == "to_animals"][0]
+        c2, tc2 = lean_month_animals(cap["consts"], cap["tc"], case["perturbation"])
+        compare(ctx, "to_animals", c2, tc2, solve_model_animals(c2, tc2), case, "replay")
+        return
     if case["kind"] == "perturbed_animals":
         cap = [c for c in r["cap"].opt if c["type"] == "to_animals"][0]
         c2, tc2 = perturb_animals(cap["consts"], cap["tc"], case["perturbation"])
